@@ -73,19 +73,24 @@ pub struct LifeCfg {
     /// start, at the start of every round). Their requests stay queued in the dispatcher until a
     /// SYN meets them.
     pub abandoned_accepts: (usize, usize),
+    /// rounds (by index) that begin with a burst of concurrent connects from the subject, more
+    /// than its connection limit allows (at most 4: the per-address cap on connects in progress);
+    /// whatever comes up is closed gracefully at once and the harness waits out the bound
+    pub bursts: Vec<usize>,
 }
 
 impl LifeCfg {
     pub fn describe(&self) -> String {
         format!(
-            "subject[{}] peer[{}] limit={} bound={}s rounds={:?} cancel_with_open={:?} abandoned_accepts={:?}",
+            "subject[{}] peer[{}] limit={} bound={}s rounds={:?} cancel_with_open={:?} abandoned_accepts={:?} bursts={:?}",
             self.subject.describe(),
             self.peer.describe(),
             self.limit,
             self.bound / SEC,
             self.rounds,
             self.cancel_with_open,
-            self.abandoned_accepts
+            self.abandoned_accepts,
+            self.bursts
         )
     }
 }
@@ -401,6 +406,29 @@ pub async fn life_scenario(world: Arc<World>, cfg: LifeCfg, case_seed: u64) -> L
     for (ri, round) in cfg.rounds.iter().enumerate() {
         world.log.note(format!("round {ri} starts"));
         abandon_accepts(&world, &subj.sock, cfg.abandoned_accepts.1, &mut abandoned).await;
+        if cfg.bursts.contains(&ri) && cfg.limit < 4 {
+            let n = (cfg.limit + 2).min(4);
+            world.log.note(format!("round {ri}: burst of {n} concurrent connects (limit {})", cfg.limit));
+            let mut hs = Vec::new();
+            for k in 0..n {
+                let (w2, s2, p2, a_s, a_p) = (world.clone(), subj.sock.clone(), peer.sock.clone(), acc_s.clone(), acc_p.clone());
+                let conn = 7_000_000 + (ri as u32) * 10 + k as u32;
+                hs.push(tokio::spawn(async move { (conn, open(&w2, &s2, &p2, true, case_seed, conn, &a_s, &a_p).await) }));
+            }
+            let mut up = 0;
+            for h in hs {
+                if let Ok((conn, Ok((s, p)))) = h.await {
+                    up += 1;
+                    let (sc, pc) = (ApiCtx { log: world.log.clone(), conn, side: 0 }, ApiCtx { log: world.log.clone(), conn, side: 1 });
+                    api_drop_writer(&sc, s.1);
+                    api_drop_reader(&sc, s.0);
+                    api_drop_writer(&pc, p.1);
+                    api_drop_reader(&pc, p.0);
+                }
+            }
+            world.log.note(format!("round {ri}: burst over, {up} of {n} came up"));
+            world.sleep_us(cfg.bound).await;
+        }
         let mut lives = Vec::new();
         for (subject_connects, s2p, p2s, how) in &round.conns {
             let conn = next_conn;
@@ -621,6 +649,14 @@ pub fn generate(case_seed: u64) -> (LifeCfg, FaultPlan, String) {
         // a few seconds) + generous slack; virtual time is free
         bound: (inact + 150) * SEC,
         cancel_with_open: if r.chance(0.5) { Some(r.range(0, limit as u64) as usize) } else { None },
+        bursts: {
+            let mut a = Prng::new(case_seed ^ 0xB025_7);
+            if a.chance(0.3) {
+                vec![a.below(3) as usize]
+            } else {
+                Vec::new()
+            }
+        },
         abandoned_accepts: {
             let mut a = Prng::new(case_seed ^ 0xABA2_D0);
             if a.chance(0.35) {
